@@ -642,8 +642,121 @@ impl<'a> WireCtx<'a> {
             "detail": detail, "input": hex::encode(input), "info": extra, "count": 1}));
     }
 
+    /// Structure-level mutation of the serde encodings (C10 C12): the table and the byte-level
+    /// mutations only vary the CONTENT of fields; here the shape of the encoding itself varies --
+    /// JSON arrays with extra / missing elements, out-of-range or wrongly typed numbers, missing or
+    /// unknown keys, wrong node kinds; truncated bincode.  Every mutant must be refused or decode
+    /// to an object that re-encodes as a valid encoding of the fixed length -- never a panic.
+    pub fn fuzz_serde_structure(&mut self) {
+        for d in DECODERS {
+            let valid = self.valid[d].clone();
+            let info = json!({"source": "serde structure mutation"});
+            // ---- JSON
+            if let Ok(enc) = self.suite.to_serde(d, &valid, Codec::Json) {
+                if let Ok(root) = serde_json::from_slice::<Value>(&enc) {
+                    let mut paths: Vec<String> = vec![String::new()];
+                    collect_paths(&root, String::new(), &mut paths);
+                    for path in paths {
+                        let node = root.pointer(&path).cloned().unwrap_or(Value::Null);
+                        let mut variants: Vec<(Value, bool)> = vec![]; // (replacement, changes the shape of a sequence)
+                        match &node {
+                            Value::Array(a) => {
+                                for extra in [1usize, 2, 31, 300] {
+                                    let mut b = a.clone();
+                                    for k in 0..extra {
+                                        b.push(json!((k * 37 % 256) as u8));
+                                    }
+                                    variants.push((Value::Array(b), true));
+                                }
+                                for cut in [1usize, 2, a.len() / 2, a.len()] {
+                                    if cut >= 1 && cut <= a.len() {
+                                        variants.push((Value::Array(a[..a.len() - cut].to_vec()), true));
+                                    }
+                                }
+                                variants.push((Value::Array(vec![Value::Array(a.clone())]), true));
+                                variants.push((json!({"0": a}), true));
+                                if let Some(f) = a.first() {
+                                    if f.is_number() {
+                                        for bad in [json!(256), json!(-1), json!(1.5), json!("7"), Value::Null, json!(true), json!([]), json!(1u64 << 40)] {
+                                            for pos in [0usize, a.len() - 1] {
+                                                let mut b = a.clone();
+                                                b[pos] = bad.clone();
+                                                variants.push((Value::Array(b), true));
+                                            }
+                                        }
+                                    }
+                                }
+                            }
+                            Value::Object(m) => {
+                                for k in m.keys() {
+                                    let mut n = m.clone();
+                                    n.remove(k);
+                                    variants.push((Value::Object(n), true));
+                                }
+                                let mut n = m.clone();
+                                n.insert("zz_unknown".into(), json!([1, 2, 3]));
+                                variants.push((Value::Object(n), false));
+                                variants.push((Value::Array(m.values().cloned().collect()), false));
+                            }
+                            _ => continue,
+                        }
+                        for bad in [Value::Null, json!(0), json!(""), json!([]), json!({})] {
+                            variants.push((bad, true));
+                        }
+                        for (rep, shape) in variants {
+                            let mut m = root.clone();
+                            if path.is_empty() {
+                                m = rep;
+                            } else if let Some(slot) = m.pointer_mut(&path) {
+                                *slot = rep;
+                            }
+                            let text = serde_json::to_vec(&m).unwrap();
+                            self.evals += 1;
+                            let suite = self.suite;
+                            let got = std::panic::catch_unwind(std::panic::AssertUnwindSafe(|| suite.from_serde(d, &text, Codec::Json)));
+                            match got {
+                                Err(_) => self.report(d, "panic", format!("serde Json decoder panicked on a structurally altered encoding (node '{}')", path), &text, info.clone()),
+                                Ok(Ok(re)) => {
+                                    if shape && re != valid {
+                                        self.report(d, "accepts-wrong-length", format!("serde Json decoder accepted a structurally altered encoding (node '{}') as a different object", path), &text, info.clone());
+                                    }
+                                }
+                                Ok(Err(_)) => {}
+                            }
+                        }
+                    }
+                }
+            }
+            // ---- bincode: every proper prefix must be refused
+            if let Ok(enc) = self.suite.to_serde(d, &valid, Codec::Bincode) {
+                for n in 0..enc.len() {
+                    self.evals += 1;
+                    let suite = self.suite;
+                    let cut = enc[..n].to_vec();
+                    let got = std::panic::catch_unwind(std::panic::AssertUnwindSafe(|| suite.from_serde(d, &cut, Codec::Bincode)));
+                    match got {
+                        Err(_) => self.report(d, "panic", "serde Bincode decoder panicked on a truncated encoding".into(), &cut, info.clone()),
+                        Ok(Ok(_)) => self.report(d, "accepts-wrong-length", format!("serde Bincode decoder accepted a truncated encoding ({} of {} bytes)", n, enc.len()), &cut, info.clone()),
+                        Ok(Err(_)) => {}
+                    }
+                }
+                // a length prefix (if the format has one) blown up
+                for pos in 0..enc.len().min(16) {
+                    let mut b = enc.clone();
+                    b[pos] = 0xff;
+                    self.evals += 1;
+                    let suite = self.suite;
+                    if std::panic::catch_unwind(std::panic::AssertUnwindSafe(|| suite.from_serde(d, &b, Codec::Bincode))).is_err() {
+                        self.report(d, "panic", "serde Bincode decoder panicked".into(), &b, info.clone());
+                    }
+                }
+            }
+        }
+    }
+
     pub fn fuzz(&mut self, seed: u64, per_decoder: usize) {
         self.fuzz_keys();
+        self.fuzz_serde_structure();
         let mut rng = crate::record::Prng(seed ^ 0x5eed);
         for d in DECODERS {
             let valid = self.valid[d].clone();
@@ -706,6 +819,30 @@ impl<'a> WireCtx<'a> {
                 self.check_one(d, &b, None, &info);
             }
         }
+    }
+}
+
+fn collect_paths(v: &Value, at: String, out: &mut Vec<String>) {
+    match v {
+        Value::Array(a) => {
+            for (i, x) in a.iter().enumerate() {
+                if x.is_array() || x.is_object() {
+                    let p = format!("{at}/{i}");
+                    out.push(p.clone());
+                    collect_paths(x, p, out);
+                }
+            }
+        }
+        Value::Object(m) => {
+            for (k, x) in m {
+                if x.is_array() || x.is_object() {
+                    let p = format!("{at}/{}", k.replace('~', "~0").replace('/', "~1"));
+                    out.push(p.clone());
+                    collect_paths(x, p, out);
+                }
+            }
+        }
+        _ => {}
     }
 }
 
